@@ -42,7 +42,7 @@ pub fn extra_bases() -> Vec<(String, String)> {
             // names that collide on purpose: parameters, locals and env vars named like record fields, an index named
             // like a field, an asset and a party named like built-ins, nested constructors of two variant types
             "base_shadow".into(),
-            "env {\n    m: Int,\n}\nparty tip_slot_owner;\nasset tip_slot = 0xABCDEF1234ABCDEF1234ABCDEF1234ABCDEF1234ABCDEF1234ABCDEF1234.\"T\";\ntype D {\n    n: Int,\n    m: Int,\n    k: Int,\n}\ntype Inner {\n    A { x: Int, },\n    B { y: Int, },\n}\ntype Outer {\n    A { i: Inner, },\n    B { d: D, },\n}\ntx t(xs: List<Int>, n: Int) {\n    locals {\n        k: n + 1,\n    }\n    input src {\n        from: tip_slot_owner,\n        min_amount: tip_slot(n),\n    }\n    output {\n        to: tip_slot_owner,\n        amount: src - fees,\n        datum: Outer::B {\n            d: D {\n                n: xs[n],\n                m: m,\n                k: k,\n            },\n        },\n    }\n    output {\n        to: tip_slot_owner,\n        amount: Ada(1),\n        datum: Outer::A {\n            i: Inner::B {\n                y: n,\n            },\n        },\n    }\n}\n".into(),
+            "env {\n    m: Int,\n}\nparty tip_slot_owner;\nasset tip_slot = 0xABCDEF1234ABCDEF1234ABCDEF1234ABCDEF1234ABCDEF1234ABCDEF1234.\"T\";\ntype D {\n    n: Int,\n    m: Int,\n    k: Int,\n}\ntype Inner {\n    A { x: Int, },\n    B { y: Int, },\n}\ntype Outer {\n    A { i: Inner, },\n    B { d: D, },\n    OnlyOuter { y: Int, },\n}\ntx t(xs: List<Int>, n: Int) {\n    locals {\n        k: n + 1,\n    }\n    input src {\n        from: tip_slot_owner,\n        min_amount: tip_slot(n),\n    }\n    output {\n        to: tip_slot_owner,\n        amount: src - fees,\n        datum: Outer::B {\n            d: D {\n                n: xs[n],\n                m: m,\n                k: k,\n            },\n        },\n    }\n    output {\n        to: tip_slot_owner,\n        amount: Ada(1),\n        datum: Outer::A {\n            i: Inner::B {\n                y: n,\n            },\n        },\n    }\n}\n".into(),
         ),
         (
             "base_certs".into(),
